@@ -65,7 +65,10 @@ def r14_1_scalar_table(ctx, rid='R14.1'):
     conv = {want['str']: lambda v: v in ('str(self.yaml_node.value)', 'self.yaml_node.value'),
             want['int']: lambda v: v == 'int(self.yaml_node.value)' or v.endswith('.construct_yaml_int(self.yaml_node)'),
             want['float']: lambda v: v == 'float(self.yaml_node.value)' or v.endswith('.construct_yaml_float(self.yaml_node)'),
-            want['bool']: lambda v: (' in ' in v or '==' in v) and 'self.yaml_node.value' in v,
+            # the bool arm reads the text through PyYAML's own table of boolean spellings (so that an explicitly tagged
+            # `!!bool yes` gives what a load constructs), or through construct_yaml_bool
+            want['bool']: lambda v: ('.bool_values' in v and 'self.yaml_node.value' in v and '.lower()' in v)
+            or v.endswith('.construct_yaml_bool(self.yaml_node)'),
             want['None']: lambda v: v == 'None'}
     for typ, tag in want.items():
         ret = arms.get(tag)
@@ -79,8 +82,17 @@ def r14_1_scalar_table(ctx, rid='R14.1'):
             'get_value has arms for %s' % sorted(extra))
     r.check(not g.falls_off_end(), 'get_value raises for any other tag', g.key('fallthrough'), g.loc(), 'get_value can return None for '
             'a node that is not a null')
-    # bool words
+    # the fallback of the table lookup (a text that is no boolean spelling at all) is False
     bret = arms.get(want['bool'])
+    if bret is not None and bret.value is not None:
+        v_ = bret.value
+        while isinstance(v_, ast.Call) and call_name(v_) in ('cast', 'bool') and v_.args:
+            v_ = v_.args[-1]
+        if isinstance(v_, ast.Call) and call_name(v_) == 'get':
+            r.check(len(v_.args) == 2 and isinstance(v_.args[1], ast.Constant) and v_.args[1].value is False,
+                    'get_value: a bool node whose text is no boolean spelling reads as False', g.key('bool-fallback'), g.loc(bret),
+                    'get_value answers %s for a bool-tagged node whose text PyYAML does not know' % (norm(v_.args[1]) if len(v_.args) > 1 else None))
+    # bool words
     if bret is not None and isinstance(bret.value, ast.Compare) and isinstance(bret.value.comparators[0], (ast.List, ast.Tuple, ast.Set)):
         words = {const_str(x) for x in bret.value.comparators[0].elts}
         r.check(words == TRUE_WORDS and isinstance(bret.value.ops[0], ast.In), 'get_value maps exactly %s to True' % sorted(TRUE_WORDS),
